@@ -32,6 +32,15 @@ CLAIMED = {
         ref="DESIGN.md section 5 C15",
         technique="Coq proof (induction over the peek/poke word loops) + translator for register tables + end-to-end differential correspondence evaluated by vm_compute",
         note=TB + " ptrace word semantics (8 bytes, EIO unless all mapped) and page-granular mappings are assumed; disassembly masking and DAP setVariable are not yet in the model."),
+    "C05": dict(
+        text=("Theorems (Coq, any stack depth below the cap, any CFI supplied as functions): the unwinder's loop returns the complete chain of return "
+              "addresses whenever no (return address, CFA) pair repeats (C05_unwind_complete, with CFAs strictly increasing this covers every recursion); "
+              "registers restored for a selected frame are those the unwinder derives that frame from (C05_frame_select); register-number tables equal the "
+              "psABI's. The loop's guard key, loop bounds and outermost-frame handling are read from the source by the translator. Tie: real backtraces, "
+              "frame_info and argument reads at depths up to ~780 frames against the harness's own frame-pointer walk, decided in Coq."),
+        ref="DESIGN.md section 5 C05",
+        technique="Coq proof (loop invariant by induction on fuel, generic in the CFI oracle) + translator (guard key, loop bounds, register tables) + end-to-end differential correspondence against a frame-pointer walk",
+        note=TB + " gimli's CFI evaluation and compiler-emitted .eh_frame are parameters of the theorems (cross-checked only against the rbp chain)."),
 }
 
 NOT_YET = {
